@@ -80,9 +80,12 @@ func c14Check(c *core.Ctx, cfg bandCfg, b band.Band, custom map[int]bool, netEna
 		c.Violate("C14|"+cfg.Name+"|device-rejects", "a device would reject the generated commands | %s", ctx())
 		return
 	}
+	// indices the plan does not have are not among "the network's enabled channels" and the device sets the
+	// property speaks of are sets of the plan's channels: whether a stale index ends up switched off (the
+	// library's planner does that as far as the last block reaches) or is left alone is not judged
 	var gotIdx []int
 	for i, e := range got {
-		if e {
+		if e && i < n {
 			gotIdx = append(gotIdx, i)
 		}
 	}
@@ -97,6 +100,9 @@ func c14Check(c *core.Ctx, cfg bandCfg, b band.Band, custom map[int]bool, netEna
 		c.Violate("C14|"+cfg.Name+"|apply-failed", "GetEnabledUplinkChannelIndicesForLinkADRReqPayloads: %v %s | %s", err, short(msg, 200), ctx())
 	} else {
 		sort.Ints(lib)
+		for len(lib) > 0 && lib[len(lib)-1] >= n {
+			lib = lib[:len(lib)-1]
+		}
 		if fmt.Sprint(lib) != fmt.Sprint(want) {
 			c.Violate("C14|"+cfg.Name+"|apply-differs", "library apply gives %v, expected %v | %s", lib, want, ctx())
 		}
